@@ -6,6 +6,7 @@ c the W>F combination builder accumulates substitutions (each step applies to th
 d Sec handling: a too-long start node is abandoned only when it carries no selenocysteine
 """
 import ast
+import re
 from sa.model import unparse, norm_stmt, call_name, kwarg, walk_no_nested, AnalysisError
 from sa.cfg import CFG
 from sa import guards as G
@@ -271,3 +272,37 @@ def run(chk, repo):
     from rules.shared import kwname
     chk.clauses.append('C09.kw (shared R-THREAD) parameters handed on as keyword arguments keep their name: no `a=b` between two parameters of one function')
     kwname(chk, repo, 'C09.kw', ['cli.call_alt_translation'], floor=0)
+    # ------------------------------------------------------------------ i: the SECT pseudo-variant covers exactly the Sec codon
+    from sa import sem as _s9
+    chk.rule('C09.i', 'R-AFFINE-EQV: a SECT pseudo-variant is the 3-base interval [pos, pos + 3) of the transcript and is named after the gene position of its first base', 2)
+    chk.clauses.append('C09.i create_variant_sect places the pseudo-variant on the three bases of the annotated Sec codon and derives its id from the gene coordinate of the codon start')
+    cs = repo.func('seqvar.VariantRecord:create_variant_sect')
+    chk.uses(cs)
+    ncs = _s9.nf(repo, cs)
+    chains9 = _s9.block_chains(ncs)
+    from sa.affine import simple_aff, Aff
+    locs = [(st, c) for st in ast.walk(ncs) if isinstance(st, ast.stmt) and _s9.own_stmt(st) for c in _s9.calls_in_stmt(st, 'FeatureLocation')]
+    ok9 = len(locs) == 1
+    got9 = None
+    if ok9:
+        st, c = locs[0]
+        a0 = kwarg(c, 'start') or (c.args[0] if c.args else None)
+        a1 = kwarg(c, 'end') or (c.args[1] if len(c.args) > 1 else None)
+        f0 = simple_aff(_s9.expand_names(ncs, st, a0, chains=chains9)) if a0 is not None else None
+        f1 = simple_aff(_s9.expand_names(ncs, st, a1, chains=chains9)) if a1 is not None else None
+        got9 = (repr(f0), repr(f1))
+        ok9 = f0 is not None and f1 is not None and f0 == Aff.sym('pos') and f1 == Aff.sym('pos') + 3
+    chk.ob('C09.i', 'SECT location = [pos, pos + 3)', cs.where, ok9, f"SECT pseudo-variant is placed at {got9}, not on the three bases of the Sec codon [pos, pos + 3)",
+           key=cs.qual + '::location', fn=cs.qual)
+    ids = [n for n in ast.walk(ncs) if isinstance(n, ast.JoinedStr) and any(isinstance(v, ast.Constant) and 'SECT-' in str(v.value) for v in n.values)]
+    ok9 = False
+    if len(ids) == 1:
+        fv = [v for v in ids[0].values if isinstance(v, ast.FormattedValue)]
+        stmt9 = next(s_ for s_ in ast.walk(ncs) if isinstance(s_, ast.stmt) and s_ is not ncs and _s9.own_stmt(s_) and any(x is ids[0] for x in ast.walk(s_)))
+        if len(fv) == 1:
+            t9 = unparse(_s9.expand_names(ncs, stmt9, fv[0].value, chains=chains9, allow_calls=('coordinate_genomic_to_gene', 'coordinate_transcript_to_genomic')))
+            pa9 = [a.arg for a in ncs.args.args]
+            want9 = '{0}.coordinate_genomic_to_gene({0}.coordinate_transcript_to_genomic({2}, {1}), {0}.transcripts[{1}].gene_id) + 1'.format(*pa9) if len(pa9) == 3 else None
+            ok9 = want9 is not None and re.sub(r'\s', '', t9) in (re.sub(r'\s', '', want9), re.sub(r'\s', '', '1 + ' + want9[:-4]))
+    chk.ob('C09.i', "SECT id = 'SECT-' + (gene coordinate of the codon start + 1)", cs.where, ok9,
+           'the SECT identifier is not derived from the gene coordinate of the first base of the codon (1-based)', key=cs.qual + '::id', fn=cs.qual)
